@@ -255,14 +255,14 @@ _EXTRA = {
     "C04": ["flows.torch.flows:ZukoFlow.forward", "flows.torch.flows:ZukoFlow.inverse", "aspire:Aspire.init_flow", "transforms:BoundedTransform.to_unit_interval", "transforms:BoundedTransform.from_unit_interval", "aspire:Aspire.init_sampler", "flows.jax.flows:FlowJax.sample_and_log_prob", "flows.torch.flows:ZukoFlow.sample_and_log_prob"],
     "C05": ["transforms:CompositeTransform.forward", "transforms:CompositeTransform.inverse", "flows.torch.flows:ZukoFlow.forward", "flows.torch.flows:ZukoFlow.inverse", "samplers.base:Sampler.fit_preconditioning_transform", "aspire:Aspire.init_sampler", "samplers.mcmc:Emcee.sample", "samplers.mcmc:MiniPCN.sample", "samplers.smc.base:SMCSampler.sample"],
     "C08": ["aspire:Aspire.sample_posterior"],
-    "C10": ["samplers.mcmc:Emcee.sample", "samplers.mcmc:MiniPCN.sample", "samples:BaseSamples.from_dict", "utils:PoolHandler.__exit__"],
+    "C10": ["samplers.mcmc:Emcee.sample", "samplers.mcmc:MiniPCN.sample", "samples:BaseSamples.from_dict", "utils:PoolHandler.__exit__", "aspire:Aspire.convert_to_samples"],
     "C11": ["transforms:CompositeTransform.fit", "samplers.smc.emcee:EmceeSMC.sample", "samplers.smc.minipcn:MiniPCNSMC.sample", "samplers.base:Sampler.fit_preconditioning_transform", "aspire:Aspire.sample_posterior", "aspire:Aspire.init_sampler", "samples:BaseSamples.from_samples", "aspire:Aspire.resume_from_file", "aspire:Aspire._build_aspire_from_file"],
     "C12": ["utils:resolve_xp", "aspire:Aspire.auto_checkpoint", "aspire:Aspire.save_flow", "samplers.smc.base:SMCSampler.restore_from_checkpoint", "samplers.smc.base:SMCSampler.build_checkpoint_state", "aspire:Aspire.resume_from_file", "aspire:Aspire._build_aspire_from_file"],
     "C14": ["aspire:Aspire.save_flow", "aspire:Aspire.init_sampler", "aspire:Aspire.resume_from_file", "aspire:Aspire._build_aspire_from_file", "samplers.smc.base:SMCSampler.sample", "aspire:Aspire.config_dict", "aspire:Aspire.save_config"],
     "C13": ["aspire:Aspire.init_flow", "aspire:Aspire.save_flow", "aspire:Aspire.init_sampler", "samples:BaseSamples.__setstate__", "transforms:CompositeTransform.__init__", "samples:Samples.to_numpy", "samples:SMCSamples.to_numpy", "aspire:Aspire.config_dict", "aspire:Aspire.save_config", "aspire:Aspire._build_aspire_from_file"],
     "C15": ["utils:resolve_xp", "samplers.smc.base:SMCSampler.sample", "aspire:Aspire.init_flow", "transforms:BoundedTransform.to_unit_interval", "transforms:BoundedTransform.from_unit_interval", "aspire:Aspire.init_sampler", "flows.torch.flows:ZukoFlow.sample_and_log_prob", "samplers.importance:ImportanceSampler.sample", "samplers.smc.minipcn:MiniPCNSMC.mutate", "samplers.smc.emcee:EmceeSMC.mutate", "aspire:Aspire._build_aspire_from_file", "flows.jax.flows:FlowJax.save", "flows.torch.flows:BaseTorchFlow.save", "samples:BaseSamples.from_dict", "samples:Samples.rejection_sample",
             "transforms:CompositeTransform.forward", "transforms:CompositeTransform.inverse"],
-    "C17": ["aspire:Aspire.sample_posterior", "samplers.mcmc:Emcee.sample", "samplers.mcmc:MiniPCN.sample", "samplers.base:Sampler.log_likelihood"],
+    "C17": ["aspire:Aspire.sample_posterior", "samplers.mcmc:Emcee.sample", "samplers.mcmc:MiniPCN.sample", "samplers.base:Sampler.log_likelihood", "aspire:Aspire.n_likelihood_evaluations", "aspire:Aspire.convert_to_samples"],
     "C18": ["samplers.smc.emcee:EmceeSMC.mutate", "samplers.smc.minipcn:MiniPCNSMC.mutate", "history:SMCHistory.save"],
     "C20": ["aspire:Aspire.init_flow", "aspire:Aspire.init_sampler", "flows.jax.flows:FlowJax.sample_and_log_prob", "samplers.importance:ImportanceSampler.sample", "samplers.smc.base:SMCSampler.__init__", "samplers.smc.blackjax:BlackJAXSMC.__init__"],
 }
